@@ -23,16 +23,21 @@ class Task:
         """Runs once per path: build symbolic inputs, call I.run_function, state obligations (I.ob)."""
         raise NotImplementedError
 
-    def run(self, repo: Repo):
+    shard = False      # True: the driver may split the path tree of this task over several worker processes
+                       # (body must not keep state across paths)
+
+    def run(self, repo: Repo, start=None, budget=None):
         t0 = time.time()
         out = {"task": self.name, "records": [], "functions": [], "models": [], "summaries": [],
-               "inlined": [], "paths": 0, "solver_ms": 0.0, "queries": 0, "error": None, "undecided": None}
+               "inlined": [], "paths": 0, "solver_ms": 0.0, "queries": 0, "error": None, "undecided": None,
+               "leftover": []}
         try:
             for q in self.functions:
                 out["functions"].append(repo.func(q).describe() if ":" in q and not q.endswith("!class")
                                         else {"function": q})
             I = Interp(repo, self.config(repo))
-            I.explore(self.body)
+            I.explore(self.body, start=start, budget=budget)
+            out["leftover"] = I.leftover
             if I.path_errors:
                 out["undecided"] = "; ".join(I.path_errors[:3])
             out["records"] = [r.to_json() for r in I.records]
